@@ -15,6 +15,9 @@ macro "bstep " h:ident " with " a:ident t:ident ha:ident : tactic =>
 def revealedOf (msgs : List Int) (U : List Nat) : List Int :=
   ((List.range' 0 msgs.length).filter (fun i => !U.contains i)).map (fun i => msgs.getD i 0)
 
+/-- Core of the completeness of the nine-response proof, stated in the unit group `(ℤ/N)ˣ`
+(`rp N x` = the class of `x`): the five values `in_1 … in_5` the verifier recomputes are the prover's
+`t_1 … t_5`. Also returns the opening of `C_e` (needed for the range proof on `e`). -/
 theorem spok_complete_core (hA : ArithOK) (cs : Suite) (σ : Signature) (cpk : CommitmentPK)
     (pk : PublicKey) (bases msgs : List Int) (U : List Nat)
     (hNeq : cpk.N = pk.N) (hN : 1 < pk.N)
@@ -27,8 +30,10 @@ theorem spok_complete_core (hA : ArithOK) (cs : Suite) (σ : Signature) (cpk : C
     (hn1 : msgs.length ≤ bases.length) (hn2 : msgs.length ≤ cpk.gBases.length)
     (hn0 : 0 < cpk.gBases.length) (hU : U.Pairwise (· < ·))
     (π : SignaturePoK) (t t' : List Draw)
-    (hgen : nisp5Gen cs σ cpk pk bases msgs U t = .ok (π, t')) (tv : List Draw) :
-    nisp5Verify π cpk pk bases (revealedOf msgs U) U msgs.length tv = .ok (true, tv) := by
+    (hgen : nisp5Gen cs σ cpk pk bases msgs U t = .ok (π, t')) :
+    (∀ tv, nisp5Verify π cpk pk bases (revealedOf msgs U) U msgs.length tv = .ok (true, tv)) ∧
+      0 ≤ π.Ce.randomness ∧
+      π.Ce.value = can pk.N (σ.e • rp pk.N (cpk.gBases.getD 0 1) + π.Ce.randomness • rp pk.N cpk.h) := by
   obtain ⟨Nc, h, gs⟩ := cpk
   simp only at hNeq hg hh hn2 hn0
   subst hNeq
@@ -121,6 +126,7 @@ theorem spok_complete_core (hA : ArithOK) (cs : Suite) (σ : Signature) (cpk : C
         rw [List.getD_eq_getElem?_getD, List.getD_eq_getElem?_getD, this, Nat.zero_add]
       rw [e]; module
   rw [hsum] at hQ1r hQ4r
+  refine ⟨fun tv => ?_, hre0, hCev⟩
   unfold nisp5Verify
   simp only []
   rw [if_neg (by omega), hQ1, hQ4, idx_eq_pure hn0 1]
@@ -141,5 +147,212 @@ theorem spok_complete_core (hA : ArithOK) (cs : Suite) (σ : Signature) (cpk : C
   · module
   · module
   · module
+
+/-- the hypotheses on the public parameters shared by the C15 theorems: a commitment key over the
+issuer's modulus, all public bases invertible modulo `N` (they are quadratic residues coprime to `N`
+in every honestly generated key), enough bases. -/
+structure Params (cpk : CommitmentPK) (pk : PublicKey) (bases : List Int) (n : Nat) : Prop where
+  hNeq : cpk.N = pk.N
+  hN : 1 < pk.N
+  hg : ∀ g ∈ cpk.gBases, Int.gcd g pk.N = 1
+  hh : Int.gcd cpk.h pk.N = 1
+  ha : ∀ a ∈ bases, Int.gcd a pk.N = 1
+  hb : Int.gcd pk.b pk.N = 1
+  hc : Int.gcd pk.c pk.N = 1
+  hn2 : n ≤ cpk.gBases.length
+  hn0 : 0 < cpk.gBases.length
+
+/-- the hypotheses are satisfiable (toy modulus `N = 35`, all bases `4 = 2²`). -/
+example : Params ⟨35, 4, [4, 4]⟩ ⟨35, 4, 4⟩ [4, 4] 2 := by
+  constructor <;> simp <;> decide
+
+/-- **C15 (completeness of the nine-response proof).** For every signature accepted by
+`verify_multiattr`, every hidden list `U` that is STRICTLY ASCENDING (the only condition on `U`;
+members `≥ n` make the generator panic, so they are excluded by `hgen`), every tape on which
+`nisp5_MultiAttr_generate_proof` returns, the proof verifies against the revealed messages (those at
+the positions outside `U`, in increasing order), the same keys, bases, `U` and attribute count.
+
+Observation about the API: `U` must be sorted. The prover lists `s_5` in the order of `U`, the
+verifier consumes `s_5` in increasing order of the position `i`; for an unsorted `U` (e.g. `[1, 0]`)
+position `0` is checked against the response of position `1` and the proof is rejected (except with
+the probability of a hash coincidence). Duplicates in `U` shift the responses in the same way. -/
+theorem spok_complete (hA : ArithOK) (cs : Suite) (σ : Signature) (cpk : CommitmentPK)
+    (pk : PublicKey) (bases msgs : List Int) (U : List Nat)
+    (hp : Params cpk pk bases msgs.length) (hU : U.Pairwise (· < ·))
+    (tσ tσ' : List Draw) (hσ : verifyMultiattr cs σ pk bases msgs tσ = .ok (true, tσ'))
+    (π : SignaturePoK) (t t' : List Draw)
+    (hgen : nisp5Gen cs σ cpk pk bases msgs U t = .ok (π, t')) (tv : List Draw) :
+    nisp5Verify π cpk pk bases (revealedOf msgs U) U msgs.length tv = .ok (true, tv) := by
+  have hN0 : 0 ≤ pk.N := by have := hp.hN; omega
+  have ha : ∀ a ∈ bases, IsU pk.N a := fun a h => isU_of_gcd hN0 (hp.ha a h)
+  have hb := isU_of_gcd hN0 hp.hb
+  have hc := isU_of_gcd hN0 hp.hc
+  obtain ⟨hn1, -, -, -, hv, hsig⟩ := verifyMultiattr_true_inv hA hp.hN ha hb hc hσ
+  exact (spok_complete_core hA cs σ cpk pk bases msgs U hp.hNeq hp.hN
+    (fun g h => isU_of_gcd hN0 (hp.hg g h)) (isU_of_gcd hN0 hp.hh) ha hb hc hv hsig hn1 hp.hn2 hp.hn0
+    hU π t t' hgen).1 tv
+
+/-! ### `proofGen` / `proofVerify` -/
+
+/-- Completeness of the Boudot range proof in the form used here (the range proofs are C16's):
+a range proof generated for a value `x ∈ [lo, hi]` and a commitment `c = g^x h^r mod n` with
+non-negative randomness, over invertible bases, verifies. -/
+def RangeComplete (cs : Suite) : Prop :=
+  ∀ (x : Int) (c : Commitment) (g h n lo hi : Int) (π : RangeProof) (t t' : List Draw),
+    1 < n → Int.gcd g n = 1 → Int.gcd h n = 1 → lo ≤ x → x ≤ hi → 0 ≤ c.randomness →
+    0 ≤ c.value → c.value < n →
+    (∃ a b, powMod g x n = some a ∧ powMod h c.randomness n = some b ∧ c.value = tmod (a * b) n) →
+    rangeProve cs x c g h n lo hi t = .ok (π, t') →
+    ∀ tv, rangeVerify cs π g h n lo hi tv = .ok (true, tv)
+
+/-- the range proof carries the commitment value it is about. -/
+theorem rangeProve_E {cs : Suite} {x : Int} {c : Commitment} {g h n lo hi : Int} {π : RangeProof}
+    {t t' : List Draw} (hgen : rangeProve cs x c g h n lo hi t = .ok (π, t')) : π.E = c.value := by
+  unfold rangeProve at hgen
+  split at hgen
+  · cases hgen
+  simp only [] at hgen
+  bstep hgen with E' t1 h1
+  bstep hgen with tol t2 h2
+  obtain ⟨rfl, -⟩ := ok_inj hgen
+  rfl
+
+/-- the verifier reads only the values of the four commitments. -/
+theorem nisp5Verify_strip (π : SignaturePoK) (cpk : CommitmentPK) (pk : PublicKey) (bases rev : List Int)
+    (U : List Nat) (n : Nat) :
+    nisp5Verify { π with Cx := publicPart π.Cx, Cv := publicPart π.Cv, Cw := publicPart π.Cw,
+                         Ce := publicPart π.Ce } cpk pk bases rev U n =
+      nisp5Verify π cpk pk bases rev U n := rfl
+
+/-- what `RangeComplete` needs of a commitment with value `can N (x • [g] + r • [h])`. -/
+theorem opening_of_can (hA : ArithOK) {N g h : Int} (hN : 1 < N) (hg : IsU N g) (hh : IsU N h)
+    (x r : Int) :
+    ∃ a b, powMod g x N = some a ∧ powMod h r N = some b ∧
+      can N (x • rp N g + r • rp N h) = tmod (a * b) N := by
+  refine ⟨_, _, powMod_unit hA hN hg x, powMod_unit hA hN hh r, ?_⟩
+  rw [tmod_good hN (good_mul (good_can hN _) (good_can hN _)),
+    rp_mul_good (good_can hN _) (good_can hN _), rp_can hN, rp_can hN]
+
+/-- completeness of `nisp2sec` for a commitment `g^m h^r` over invertible bases (any `m`). -/
+theorem nisp2sec_complete' (hA : ArithOK) {cs : Suite} {m : Int} {c : Commitment} {g h N : Int}
+    (hN : 1 < N) (hg : IsU N g) (hh : IsU N h)
+    (hc : c.value = can N (m • rp N g + c.randomness • rp N h))
+    {π : NISPSecrets} {t t' : List Draw} (hgen : nisp2secGen cs m c g h N t = .ok (π, t'))
+    (tv : List Draw) : nisp2secVerify π c.value g h N tv = .ok (true, tv) := by
+  unfold nisp2secGen at hgen
+  bstep hgen with r1 t1 h1
+  bstep hgen with r2 t2 h2
+  simp (maxDischargeDepth := 8) only [pure_bind, pw_unit hA hN hg, pw_unit hA hN hh, tmod_good hN,
+    good_mul, good_can hN, rp_mul_good, rp_can hN] at hgen
+  obtain ⟨rfl, -⟩ := ok_inj hgen
+  unfold nisp2secVerify
+  simp (maxDischargeDepth := 8) only [pure_bind, pw_unit hA hN hg, pw_unit hA hN hh, hc,
+    pw_can hA hN, tmod_good hN, good_mul, good_can hN, rp_mul_good, rp_can hN, pure_apply]
+  refine congrArg (fun z => CRes.ok (z, tv)) ?_
+  rw [beq_iff_eq]
+  congr 1
+  module
+
+/-- the per-attribute proofs generated for the hidden positions verify, in the order of `U`. -/
+theorem pokMi_complete (hA : ArithOK) (cs : Suite) (hRange : RangeComplete cs) (cpk : CommitmentPK)
+    (msgs : List Int) (hN : 1 < cpk.N) (hg : ∀ g ∈ cpk.gBases, IsU cpk.N g) (hh : IsU cpk.N cpk.h)
+    (hm : ∀ m ∈ msgs, 0 ≤ m ∧ m < 2 ^ cs.lm) (π : PoKSignature)
+    (U : List Nat) (k : Nat) (ps : List ProofOfValue) (rs : List RangeProof) (t t' : List Draw)
+    (hgen : pokMiLoop cs cpk msgs U t = .ok ((ps, rs), t'))
+    (hps : π.proofsMi.drop k = ps) (hrs : π.rangeProofsMi.drop k = rs) (tv : List Draw) :
+    pokMiVerifyLoop cs cpk π U k tv = .ok (true, tv) := by
+  induction U generalizing k ps rs t t' with
+  | nil => rfl
+  | cons i is ih =>
+    unfold pokMiLoop at hgen
+    bstep hgen with mi t1 h1
+    bstep hgen with gi t2 h2
+    bstep hgen with cmi t3 h3
+    bstep hgen with pv t4 h4
+    bstep hgen with rp' t5 h5
+    bstep hgen with pr t6 h6
+    obtain ⟨ps', rs'⟩ := pr
+    obtain ⟨hgen, -⟩ := ok_inj hgen
+    obtain ⟨rfl, rfl⟩ := Prod.mk.inj hgen
+    obtain ⟨hmi, -⟩ := idx_ok_iff.mp h1
+    obtain ⟨hgi, -⟩ := idx_ok_iff.mp h2
+    have hil : i < msgs.length := by
+      by_contra hlt; rw [List.getElem?_eq_none (by omega)] at hmi; cases hmi
+    have hig : i < cpk.gBases.length := by
+      by_contra hlt; rw [List.getElem?_eq_none (by omega)] at hgi; cases hgi
+    have hmi' : msgs.getD i 0 = mi := by rw [List.getD_eq_getElem?_getD, hmi]; rfl
+    have hgi' : cpk.gBases.getD i 1 = gi := by rw [List.getD_eq_getElem?_getD, hgi]; rfl
+    have hgiU : IsU cpk.N gi := hgi' ▸ hg _ (getD_mem hig 1)
+    have hmiR := hm mi (List.mem_of_getElem? hmi)
+    obtain ⟨hr0, hcv⟩ := commitWithCpk_inv hA hN hg hh (some [i])
+      (by intro j hj; simp only [Option.getD_some, List.mem_singleton] at hj; subst hj
+          exact ⟨hig, hil⟩) h3
+    simp only [Option.getD_some, List.map_cons, List.map_nil, List.sum_cons, List.sum_nil, add_zero,
+      hmi', hgi'] at hcv
+    obtain ⟨hp1, hp2⟩ := drop_cons_inv hps
+    obtain ⟨hr1, hr2⟩ := drop_cons_inv hrs
+    unfold pokMiVerifyLoop
+    rw [idx_of_getElem? hgi, idx_of_getElem? hp1, idx_of_getElem? hr1]
+    simp only [pure_bind]
+    show (nisp2secVerify pv cmi.value gi cpk.h cpk.N >>= _) tv = _
+    rw [bind_of_ok (nisp2sec_complete' hA hN hgiU hh hcv h4 tv)]
+    simp only [Bool.not_true, Bool.false_eq_true, if_false]
+    have hrange := hRange mi cmi gi cpk.h cpk.N 0 (2 ^ cs.lm - 1) rp' _ _ hN
+      (gcd_of_isU (by omega) hgiU) (gcd_of_isU (by omega) hh) hmiR.1 (by omega) hr0
+      (by rw [hcv]; exact can_nonneg _) (by rw [hcv]; exact can_lt hN _)
+      (by rw [hcv]; exact opening_of_can hA hN hgiU hh _ _) h5 tv
+    rw [bind_of_ok hrange]
+    simp only [Bool.not_true, Bool.false_eq_true, if_false]
+    exact ih (k + 1) ps' rs' _ _ h6 hp2 hr2
+
+/-- **C15 (completeness of `proof_gen` / `proof_verify`).** Given the completeness of the range
+proofs (`hRange`, C16), for every accepted signature and strictly ascending hidden list `U`, the full
+proof — nine-response proof, range proof on `e ∈ [2^(le-1)+1, 2^le − 1]` linked through
+`C_e.value == rangeProofE.E`, and per hidden attribute a commitment, a `nisp2sec` proof and a range
+proof in `[0, 2^lm − 1]` — verifies. -/
+theorem proof_complete (hA : ArithOK) (cs : Suite) (hRange : RangeComplete cs) (σ : Signature)
+    (cpk : CommitmentPK) (pk : PublicKey) (bases msgs : List Int) (U : List Nat)
+    (hp : Params cpk pk bases msgs.length) (hU : U.Pairwise (· < ·))
+    (tσ tσ' : List Draw) (hσ : verifyMultiattr cs σ pk bases msgs tσ = .ok (true, tσ'))
+    (π : PoKSignature) (t t' : List Draw)
+    (hgen : proofGen cs σ cpk pk bases msgs U t = .ok (π, t')) (tv : List Draw) :
+    proofVerify cs π cpk pk bases (revealedOf msgs U) U msgs.length tv = .ok (true, tv) := by
+  have hN0 : 0 ≤ pk.N := by have := hp.hN; omega
+  have ha : ∀ a ∈ bases, IsU pk.N a := fun a h => isU_of_gcd hN0 (hp.ha a h)
+  have hb := isU_of_gcd hN0 hp.hb
+  have hc := isU_of_gcd hN0 hp.hc
+  have hg : ∀ g ∈ cpk.gBases, IsU pk.N g := fun g h => isU_of_gcd hN0 (hp.hg g h)
+  have hh := isU_of_gcd hN0 hp.hh
+  obtain ⟨hn1, he1, he2, hm, hv, hsig⟩ := verifyMultiattr_true_inv hA hp.hN ha hb hc hσ
+  unfold proofGen at hgen
+  bstep hgen with spok t1 h1
+  bstep hgen with g0 t2 h2
+  bstep hgen with rpe t3 h3
+  bstep hgen with pr t4 h4
+  obtain ⟨ps, rs⟩ := pr
+  obtain ⟨rfl, -⟩ := ok_inj hgen
+  obtain ⟨hver, hre0, hCe⟩ := spok_complete_core hA cs σ cpk pk bases msgs U hp.hNeq hp.hN
+    hg hh ha hb hc hv hsig hn1 hp.hn2 hp.hn0 hU spok t _ h1
+  obtain ⟨hg0, -⟩ := idx_ok_iff.mp h2
+  have hg0' : cpk.gBases.getD 0 1 = g0 := by rw [List.getD_eq_getElem?_getD, hg0]; rfl
+  have hg0U : IsU pk.N g0 := hg0' ▸ hg _ (getD_mem hp.hn0 1)
+  rw [hg0'] at hCe
+  have hE := rangeProve_E h3
+  have hNeq := hp.hNeq
+  unfold proofVerify
+  simp only [nisp5Verify_strip]
+  rw [bind_of_ok (hver tv)]
+  simp only [Bool.not_true, Bool.false_eq_true, if_false, publicPart, hE, beq_self_eq_true, if_true]
+  rw [idx_of_getElem? hg0]
+  simp only [pure_bind]
+  rw [hNeq] at h3 ⊢
+  have hrange := hRange σ.e spok.Ce g0 cpk.h pk.N (2 ^ (cs.le - 1) + 1) (2 ^ cs.le - 1) rpe _ _ hp.hN
+    (gcd_of_isU hN0 hg0U) hp.hh (by omega) (by omega) hre0
+    (by rw [hCe]; exact can_nonneg _) (by rw [hCe]; exact can_lt hp.hN _)
+    (by rw [hCe]; exact opening_of_can hA hp.hN hg0U hh _ _) h3 tv
+  rw [bind_of_ok hrange]
+  simp only [if_true]
+  rw [← hNeq] at hg hh
+  exact pokMi_complete hA cs hRange cpk msgs (hNeq ▸ hp.hN) hg hh hm _ U 0 ps rs _ _ h4 rfl rfl tv
 
 end Zk.C15
